@@ -470,6 +470,17 @@ pub fn exec_mmap(t: &[&str]) -> String {
 
 // tmp <threads> <calls> <part>
 pub fn exec_tmp(t: &[&str]) -> String {
+    if t[0] == "name" {
+        // tmp name <part> : two consecutive calls on this thread; the file-name components and
+        // the process id / trailing number of the first name (the model renders the name from them)
+        let part = if t.len() > 1 { t[1] } else { "" };
+        let a = serialize::temp_file_name(part);
+        let b = serialize::temp_file_name(part);
+        let fa = a.file_name().map(|x| x.to_string_lossy().to_string()).unwrap_or_default();
+        let fb = b.file_name().map(|x| x.to_string_lossy().to_string()).unwrap_or_default();
+        let c = fa.rsplit('_').next().and_then(|x| x.parse::<u64>().ok()).unwrap_or(0);
+        return format!("pid={} count={} name={} next={}", std::process::id(), c, fa, fb);
+    }
     let threads = parse_usize(t[0]);
     let calls = parse_usize(t[1]);
     let part = t[2].to_string();
